@@ -124,7 +124,7 @@ def run_deep(k):
 def run_shard(shard, tier):
     if shard[0] == 'DEEP':
         return run_deep(shard[1])
-    return e1.run_shard_generic(shard, tier, ID, check_case)
+    return e1.run_shard_generic(shard, tier, ID, check_case, variants=('used',))
 
 
 def main(tier):
